@@ -414,3 +414,21 @@ def ring_phase(ctx, num, race=False):
         raise Inconclusive("ring driver failed (rc=%s):\n%s" % (rc, o[-2500:]))
     summ = json.load(open(sp)) if os.path.exists(sp) else {"traces": 0, "events": 0, "drift": 0, "behaviours": 0, "steps": 0}
     return mc.distinct, mc.generated, trace, summ
+
+
+KEYTYPE_OVERLAYS = dict(OVERLAYS)
+KEYTYPE_OVERLAYS["verif_keytypes_test.go"] = "cache/keytypes_test.go.txt"
+
+
+def keytypes_run(ctx, race=False):
+    """C01: the key kinds with the default key hashing (harness/cache/keytypes_test.go.txt)."""
+    rc, out, d = vlib.go_test(ctx, ".", KEYTYPE_OVERLAYS, "^TestVerifKeyTypes$", race=race, timeout=900, name="keytypes")
+    trace = os.path.join(d, "keytypes.ndjson")
+    sp = os.path.join(d, "keytypes.summary.json")
+    if rc != 0 or not os.path.exists(sp):
+        if os.path.exists(trace) and "panic:" in out:
+            with open(trace, "a") as f:
+                f.write(json.dumps({"ev": "Panic", "what": out[out.index("panic:"):][:1500]}) + "\n")
+            return trace, {"traces": 1, "events": 1}
+        raise Inconclusive("key-type driver failed (rc=%s):\n%s" % (rc, out[-2500:]))
+    return trace, json.load(open(sp))
